@@ -7,7 +7,7 @@ package eng
 //	begin <N> establisher|receiver [tcp]
 //	conn ok|err|sessfail          answer the provider's pending NewConnection(): a fresh connection / an error /
 //	                              a connection on which sessionFn fails
-//	peer ping-ok|silent|mute|slow|eof|garbage   what the peer does with the connection handed out last (its first Ping is in flight)
+//	peer ping-ok|ping-die|silent|mute|slow|eof|garbage   what the peer does with the connection handed out last (its first Ping is in flight)
 //	die <k> remote|local|stall    the k-th registered session dies: peer closes / ManagedMuxSession.Close() / peer goes quiet (keep-alive)
 //	wait                          61 s pass (keep-alives, health checks; a ping in flight times out)
 //	cancel                        the lifetime context ends
@@ -48,7 +48,7 @@ func c10Applicable(w *muxWorld) []string {
 	if w.inflight != nil {
 		ops = append(ops, "peer ping-ok", "peer eof", "peer garbage")
 		if !w.tcp {
-			ops = append(ops, "peer silent", "peer mute", "peer slow")
+			ops = append(ops, "peer silent", "peer mute", "peer slow", "peer ping-die")
 		}
 	} else if !w.tcp {
 		ops = append(ops, "wait")
